@@ -43,7 +43,7 @@ func (check) Cases(tier string) int {
 const typeGroup = 4
 
 func (check) Rule() string {
-	return "one (type, pre-fill, configuration) triple per case. Type: derived from idx/4 (4 consecutive cases share it); 7 in 8 generated with reflect.StructOf (3-8 top-level fields, nesting depth <= 2; kinds bool, int/8/16/32/64, uint/8/16/32/64, float32/64, string, time.Duration, pointers to those, nested structs by value / by pointer / inline (inline, squash), []T and [N]T of primitives, []struct, map[string]T, map[string]*struct, map[string]struct; config tags with and without rename, ignore, merge/replace/append/prepend on lists and -- 1 in 6 -- on struct-typed fields, validate tags min/max/positive/nonzero on fields that exist before Unpack; the hand-written LibConn, LibLimits, LibPlain (unexported fields, ignored fields, InitDefaults unconditional / conditional / touching an unexported field, Validate method) and LibPort (primitive with InitDefaults) as ordinary fields by value and by pointer), 1 in 8 the hand-written LibTop. Pre-fill: every field non-zero w.p. 2/3 (nil and empty slices/maps, nil pointers otherwise; validated fields always valid). Configuration: nested map[string]interface{} through NewFrom(PathSep(\".\")), every field path mentioned w.p. 1/2 (1 in 16 of those with an explicit null), numbers as int/int64/uint64/float64/decimal string, durations as string/seconds, ignored and unexported names mentioned w.p. 1/3 with arbitrary data, map settings over a 5-key pool shared with the pre-fill. Global option: none / AppendValues / PrependValues / ReplaceValues / ReplaceArrValues. Success half: Unpack into a deep copy, compare field-path-wise with the model. Failure half: for every configurable field position in declaration order (nested, inline and pointee positions included) one fault (unparsable string, overflow, negative into unsigned, bool/object/list into primitive, string into struct/map, wrong array length, faulty list element / struct-list element / map value, failing validate tag, failing Validate method) is grafted onto the configuration and the struct passed in is compared with its snapshot. Plus per case a top-level []int / []string target and a top-level map[string]int target under the same global option. Non-trivial = the type has >= 3 configurable leaf fields, the configuration mentions >= 1 and leaves out >= 1 of them; distinct = distinct (type, pre-fill, configuration, option)."
+	return "one (type, pre-fill, configuration) triple per case. Type: derived from idx/4 (4 consecutive cases share it); 7 in 8 generated with reflect.StructOf (3-8 top-level fields, nesting depth <= 2; kinds bool, int/8/16/32/64, uint/8/16/32/64, float32/64, string, time.Duration, pointers to those, nested structs by value / by pointer / inline (inline, squash), []T and [N]T of primitives, []struct, []*struct, map[string]T, map[string]*struct, map[string]struct; config tags with and without rename, ignore, merge/replace/append/prepend on lists and -- 1 in 3 -- replace/append/prepend on struct-typed fields, validate tags min/max/positive/nonzero on fields that exist before Unpack; the hand-written LibConn, LibLimits, LibPlain (unexported fields, an embedded unexported struct, ignored fields, InitDefaults unconditional / conditional / touching an unexported field, Validate method) and LibPort (primitive with InitDefaults) as ordinary fields by value and by pointer), 1 in 8 the hand-written LibTop. Pre-fill: every field non-zero w.p. 2/3 (nil and empty slices/maps, nil pointers otherwise; validated fields always valid). Configuration: nested map[string]interface{} through NewFrom(PathSep(\".\")), every field path mentioned w.p. 1/2 (1 in 16 of those with an explicit null), numbers as int/int64/uint64/float64/decimal string, durations as string/seconds, ignored and unexported names mentioned w.p. 1/3 with arbitrary data, map settings over a 5-key pool shared with the pre-fill. Success half: Unpack into a deep copy under each of none / AppendValues / PrependValues / ReplaceValues / ReplaceArrValues, compare field-path-wise with the model. Failure half (under one of the five options, drawn per case): for every configurable field position in declaration order (nested, inline and pointee positions included) one fault at a time (up to two different ones per position: unparsable string, overflow, negative into unsigned, bool/object/list into primitive, string into struct/map, wrong array length, faulty list element / struct-list element / map value, failing validate tag, failing Validate method) is grafted onto the configuration and the struct passed in is compared with its snapshot. Plus per case a top-level []int / []string target and a top-level map[string]int target under the drawn option. Non-trivial = the type has >= 3 configurable leaf fields, the configuration mentions >= 1 and leaves out >= 1 of them; distinct = distinct (type, pre-fill, configuration, drawn option)."
 }
 
 func (check) Assumptions() []string {
@@ -423,7 +423,7 @@ func (rn *runner) success(cfg *cval) {
 	k := &comparer{res: res, twin: twin, unmodelled: m.unmodelled, ctx: ctx}
 	k.cmpStruct(rn.top, rn.master, exp.Elem(), target.Elem(), cfg, rn.gopt.pc, "top", "")
 	if rn.verbose {
-		fmt.Printf("type %v\noption %s\nconfig %s\npre   %s\nafter %s\nmodel %s\n", rn.top.typ, rn.gopt.name, renderGo(goCfg), render(rn.master), render(target.Elem()), render(exp.Elem()))
+		fmt.Printf("option %s:\n  after %s\n  model %s\n", rn.gopt.name, render(target.Elem()), render(exp.Elem()))
 	}
 }
 
@@ -553,14 +553,13 @@ func (check) Run(seed int64, tier string, idx int, verbose bool) harness.Result 
 	var stats cfgStats
 	cfg := g.cfgStruct(top, rn.master, true, &stats)
 
-	res.SetAdd("global_option", rn.gopt.name)
+	res.SetAdd("global_option_of_failure_half", rn.gopt.name)
 	if top.typ == tLibTop {
 		res.SetAdd("top_level", "hand-written")
 	} else {
 		res.SetAdd("top_level", "generated")
 	}
 	rn.monitors(top, "top")
-	rn.listMonitors(top, cfg, rn.master, rn.gopt.pc)
 	res.Ev("settings_mentioned", int64(stats.mentioned))
 	res.Ev("fields_unmentioned", int64(stats.unmentioned))
 	res.Ev("explicit_nulls", int64(stats.nulls))
@@ -575,7 +574,17 @@ func (check) Run(seed int64, tier string, idx int, verbose bool) harness.Result 
 		res.Sample = map[string]interface{}{"type": clip(top.typ.String(), 3000), "pre_filled": clip(render(rn.master), 3000), "config": clip(renderGo(cfg.toGo()), 3000), "option": rn.gopt.name}
 	}
 
-	rn.success(cfg)
+	if verbose {
+		fmt.Printf("type   %v\nconfig %s\npre    %s\n", top.typ, renderGo(cfg.toGo()), render(rn.master))
+	}
+	// success half under every global option, failure half under the drawn one
+	drawn := rn.gopt
+	for _, o := range globals {
+		rn.gopt = o
+		rn.listMonitors(top, cfg, rn.master, o.pc)
+		rn.success(cfg)
+	}
+	rn.gopt = drawn
 
 	var pos [][]*field
 	positions(top, nil, &pos)
@@ -593,11 +602,16 @@ func (check) Run(seed int64, tier string, idx int, verbose bool) harness.Result 
 				cur = deref(cur.Field(f.idx))
 			}
 		}
-		fault, kind := g.faultFor(p[len(p)-1], pre)
-		if fault == nil {
-			continue
+		// two draws per position (the second only if it is another kind of fault)
+		first := ""
+		for d := 0; d < 2; d++ {
+			fault, kind := g.faultFor(p[len(p)-1], pre)
+			if fault == nil || kind == first {
+				continue
+			}
+			first = kind
+			rn.failure(cfg, p, fault, kind, len(pos), i)
 		}
-		rn.failure(cfg, p, fault, kind, len(pos), i)
 	}
 
 	topLevelSlice(res, r, rn.gopt, verbose)
